@@ -646,6 +646,11 @@ func (vc *FuncVC) trCall(e *env, n *ECall) Term {
 				vc.eng.needFun(vc, "disp!overrides", []string{"Slice", "Int"}, "Bool")
 				return T("Bool", fmt.Sprintf("(disp!overrides %s %d)", args[0].S, vc.ss.typeTag(sig)))
 			}
+		case "arrof": // arrof(s): the backing array of a slice (to state that two slices do not share one)
+			if args[0].Sort != "Slice" {
+				return e.fail("arrof needs a slice")
+			}
+			return app("Int", "s!arr", args[0])
 		case "deref": // deref(p): the value a pointer to a basic type points to (cell heap C:<sort>)
 			if args[0].GoT != nil {
 				if pt, ok := args[0].GoT.Underlying().(*types.Pointer); ok {
